@@ -216,10 +216,11 @@ def run_cases(ctx, behs_modes, libpath, jobs):
     work = os.path.join(ctx.tmp, "mods")
     os.makedirs(work, exist_ok=True)
     args = [(i + 1, b, libpath, work, m) for i, (b, m) in enumerate(behs_modes)]
-    if jobs <= 1:
-        return [run_case(a) for a in args]
-    with ProcessPoolExecutor(jobs) as ex:
-        return list(ex.map(run_case, args, chunksize=max(1, len(args) // (jobs * 6))))
+    def crashed(a, exitcode):
+        err = "crash: worker process died (exit code %s)" % exitcode
+        return {"id": a[0], "beh": a[1],
+                "obs": {m: {"same": {}, "k": {}, "lay": {}, "reach": {}, "err": err} for m in a[4]}}
+    return mg.run_parallel(run_case, args, jobs, crashed)
 
 
 CLAUSE = {"same": "an included typedef/struct/union/enum is not the same ctype object through the including FFI",
